@@ -1049,3 +1049,9 @@ PRESERVING += [
 BREAKING += [
     ('c6-rule-objects-drop-name-check', ['C04'], [(A, _ENV_ANCHOR, _rule_class(checks='checks[1:]')), (A, _SEARCH_OLD, _SEARCH_OBJ)]),
 ]
+
+# ---- white-box round: layout engines (C03 C08 C09 C20) ----
+from .variants_layout import BREAKING as _LAY_BREAKING, PRESERVING as _LAY_PRESERVING, UNDECIDED as _LAY_UNDECIDED  # noqa: E402
+BREAKING += _LAY_BREAKING
+PRESERVING += _LAY_PRESERVING
+UNDECIDED += _LAY_UNDECIDED
